@@ -6,7 +6,7 @@
 #   mutlab.sh init                      create /tmp/mutlab/repo (git worktree of /repo HEAD) and /tmp/mutlab/verif
 #   mutlab.sh run <patch.diff> <ID[:t]>...   sync /verif sources, apply patch in the lab repo, run checks, revert
 #   mutlab.sh clean                     remove the lab (worktree + build output)
-LAB=/tmp/mutlab
+LAB=${MUTLAB:-/tmp/mutlab}
 sync_verif() {
   mkdir -p $LAB/verif
   rsync -a --delete --exclude target --exclude .git --exclude .shards --exclude replays --exclude evidence /verif/ $LAB/verif/
